@@ -43,6 +43,10 @@ type C13Case struct {
 	// PreFail: before the concurrent phase, another socket holds address 0 while the manager is asked to listen on
 	// it (stream and packet); the attempts fail, the socket goes away, and the plans then use the address as usual.
 	PreFail bool `json:"pre_fail"`
+	// Many > 0: before the plans, one manager opens a stream and a packet listener on this many distinct
+	// addresses and then closes them all with no listen call in between (a shutdown, or a reload that only
+	// drops listeners): every close returns and the manager can be listened on afterwards
+	Many int `json:"many,omitempty"`
 }
 
 func genC13(t *rapid.T) C13Case {
@@ -52,6 +56,9 @@ func genC13(t *rapid.T) C13Case {
 	clients := rapid.IntRange(0, 2).Draw(t, "clients") == 0
 	if clients {
 		c.Reps = 20
+	}
+	if rapid.IntRange(0, 9).Draw(t, "manyAddrs") == 0 {
+		c.Many = rapid.IntRange(40, 160).Draw(t, "many")
 	}
 	for i := 0; i < g; i++ {
 		n := rapid.IntRange(1, 8).Draw(t, "nops")
@@ -138,6 +145,44 @@ func runC13(c C13Case, info *kit.Info) *kit.Finding {
 				spelled[fmt.Sprintf("%s%d", op.Kind, op.Addr)] = true
 			}
 		}
+	}
+	if c.Many > 0 {
+		mgr := service.NewListenerManager()
+		done := make(chan *kit.Finding, 1)
+		var closed atomic.Int64
+		go func() {
+			var hs []io.Closer
+			for i := 0; i < c.Many; i++ {
+				addr := fmt.Sprintf("127.0.%d.%d:0", 1+i/200, 1+i%200)
+				if l, err := mgr.ListenStream(addr); err == nil {
+					hs = append(hs, l)
+				}
+				if p, err := mgr.ListenPacket(addr); err == nil {
+					hs = append(hs, p)
+				}
+			}
+			for _, h := range hs {
+				h.Close()
+				closed.Add(1)
+			}
+			l, err := mgr.ListenStream("127.0.1.1:0")
+			if err != nil {
+				done <- kit.Violation("manager:unusable-afterwards", "after closing %d listeners: %v", len(hs), err)
+				return
+			}
+			l.Close()
+			done <- nil
+		}()
+		select {
+		case f := <-done:
+			if f != nil {
+				return f
+			}
+		case <-time.After(10 * time.Second):
+			sig, dump := deadlockSignature()
+			return kit.Violation(sig, "a manager opened listeners on %d addresses and closed them with no listen call in between: only %d Close calls returned within 10 s:\n%s", c.Many, closed.Load(), dump)
+		}
+		info.Class("many-addresses-closed-in-a-row")
 	}
 	for rep := 0; rep < c.Reps; rep++ {
 		mgr := service.NewListenerManager()
